@@ -16,7 +16,9 @@ extern "C" {
 
 using vh::Case;
 static const int NU = 4, NP = 3;
-struct UrlSlot { ada_url h = nullptr; std::optional<ada::result<ada::url_aggregator>> r; };
+// `held` = the pointer ada_get_components returned earlier for this handle. The C++ call returns a reference to the object's
+// own components, so a pointer obtained once keeps describing that handle (and only that handle) across later calls.
+struct UrlSlot { ada_url h = nullptr; std::optional<ada::result<ada::url_aggregator>> r; const ada_url_components* held = nullptr; };
 struct IterSlot { void* h = nullptr; int kind = -1; std::unique_ptr<ada::url_search_params_keys_iter> k; std::unique_ptr<ada::url_search_params_values_iter> v; std::unique_ptr<ada::url_search_params_entries_iter> e;
   void clear() { h = nullptr; kind = -1; k.reset(); v.reset(); e.reset(); } };
 struct ParSlot { ada_url_search_params h = nullptr; std::unique_ptr<ada::url_search_params> r; IterSlot it[2]; };
@@ -38,7 +40,7 @@ static void free_iter(IterSlot& it) {
   else { ada_free_search_params_entries_iter(it.h); COVER(ada_free_search_params_entries_iter); }
   it.clear();
 }
-static void free_url(UrlSlot& s) { if (s.h) { ada_free(s.h); COVER(ada_free); } s.h = nullptr; s.r.reset(); }
+static void free_url(UrlSlot& s) { if (s.h) { ada_free(s.h); COVER(ada_free); } s.h = nullptr; s.r.reset(); s.held = nullptr; }
 static void free_par(ParSlot& s) { for (auto& it : s.it) free_iter(it); if (s.h) { ada_free_search_params(s.h); COVER(ada_free_search_params); } s.h = nullptr; s.r.reset(); }
 
 // compare every observable of URL slot s
@@ -72,7 +74,12 @@ static void cmp_url(int si, const Case& c, size_t at) {
     {"ada_has_non_empty_password", ada_has_non_empty_password, [](const ada::url_aggregator& u) { return (bool)u.has_non_empty_password(); }}, {"ada_has_port", ada_has_port, [](const ada::url_aggregator& u) { return (bool)u.has_port(); }},
     {"ada_has_password", ada_has_password, [](const ada::url_aggregator& u) { return (bool)u.has_password(); }}, {"ada_has_hash", ada_has_hash, [](const ada::url_aggregator& u) { return (bool)u.has_hash(); }}, {"ada_has_search", ada_has_search, [](const ada::url_aggregator& u) { return (bool)u.has_search(); }}};
   for (auto& b : bs) { covered.insert(b.name); bool v = b.f(s.h); bool w = r ? b.m(*r) : false; if (v != w) bad(b.name, "C=" + std::to_string(v) + " C++=" + std::to_string(w)); }
+  // a pointer handed out earlier for this handle must still show this handle's current offsets (not a stale or shared snapshot)
+  if (s.held && r) { const ada::url_components& w = r->get_components();
+    if (s.held->protocol_end != w.protocol_end || s.held->username_end != w.username_end || s.held->host_start != w.host_start || s.held->host_end != w.host_end || s.held->port != w.port ||
+        s.held->pathname_start != w.pathname_start || s.held->search_start != w.search_start || s.held->hash_start != w.hash_start) bad("ada_get_components:held-pointer", "a components pointer obtained earlier for this handle no longer matches the handle's components"); }
   const ada_url_components* comp = ada_get_components(s.h); COVER(ada_get_components);
+  if (r && comp) { for (int k = 0; k < NU; k++) if (k != si && U[k].h && U[k].held == comp) bad("ada_get_components:aliased", "two live handles were given the same components pointer"); s.held = comp; }
   if (!r) { if (comp != nullptr) bad("ada_get_components:invalid-handle", "non-null"); n_invalid_handle_calls += 25; }
   else if (!comp) bad("ada_get_components", "null for a valid URL");
   else { const ada::url_components& w = r->get_components();
@@ -194,7 +201,7 @@ static Case gen_case(vh::Rng& r, const std::vector<std::string>& pool, bool thor
     int slot = (int)r.below(4);
     switch (r.below(30)) {
       case 0: case 1: case 2: push("parse", slot, anyurl()); break;
-      case 3: push("parse_base", slot, r.chance(1, 3) ? gen::segment(r) + gen::path(r, true) : anyurl(), r.chance(1, 5) ? gen::bytes(r, 20) : r.pick(gen::base_pool())); break;
+      case 3: push("parse_base", slot, r.chance(1, 3) ? gen::segment(r) + gen::path(r, true) : anyurl(), r.chance(1, 5) ? (r.chance(1, 3) ? std::string() : gen::bytes(r, 20)) : r.pick(gen::base_pool())); break;   // incl. the empty base
       case 4: push("can_parse", 0, anyurl()); break;
       case 5: push("can_parse_base", 0, anyurl(), r.pick(gen::base_pool())); break;
       case 6: push("copy", slot, ""); break;
